@@ -54,6 +54,7 @@ FutureImplBase<RetResult>* FutureBase<Result>::thenImpl(
     return f(std::move(copy));
   };
 
+  DISPENSO_VERIF_POINT("FuTscInc", this);
   sched.outstandingTaskCount_.fetch_add(1, std::memory_order_acquire);
   auto* retImpl = createFutureImpl<RetResult>(
       std::move(func),
@@ -76,6 +77,7 @@ FutureImplBase<RetResult>* FutureBase<Result>::thenImpl(
     return f(std::move(copy));
   };
 
+  DISPENSO_VERIF_POINT("FuTscInc", this);
   sched.outstandingTaskCount_.fetch_add(1, std::memory_order_acquire);
   auto* retImpl = createFutureImpl<RetResult>(
       std::move(func),
@@ -169,9 +171,16 @@ auto whenAllTuple(Invoker& invoker, Futures&&... futures)
   // TODO(bbudge): Can write something faster than make_shared using SmallBufferAllocator.
   auto shared =
       std::make_shared<detail::WhenAllSharedTuple<TupleType>>(std::forward<Futures>(futures)...);
+#if defined(DISPENSO_VERIF)
+      {
+        std::shared_ptr<const void> verifOwner(shared);
+        (void)DISPENSO_VERIF_FUTURE(3, &verifOwner, &shared->count);
+      }
+#endif // DISPENSO_VERIF
 
   auto whenComplete = [shared]() -> TupleType {
     forEach(shared->tuple, [&shared](auto& future) {
+      DISPENSO_VERIF_POINT("FuWaCountLd", &shared->count);
       if (0 == shared->count.load(std::memory_order_acquire)) {
         return false;
       }
@@ -189,6 +198,7 @@ auto whenAllTuple(Invoker& invoker, Futures&&... futures)
   forEach(tuple, [shared = std::move(shared)](auto& future) {
     future.then(
         [shared](auto&&) {
+          DISPENSO_VERIF_POINT("FuWaDec", &shared->count);
           if (shared->count.fetch_sub(1, std::memory_order_release) == 1) {
             shared->f();
           }
@@ -212,9 +222,16 @@ whenAllIterators(Invoker& invoker, InputIt first, InputIt last) {
 
   // TODO(bbudge): Can write something faster than make_shared using SmallBufferAllocator.
   auto shared = std::make_shared<detail::WhenAllSharedVec<VecType>>(first, last);
+#if defined(DISPENSO_VERIF)
+  {
+    std::shared_ptr<const void> verifOwner(shared);
+    (void)DISPENSO_VERIF_FUTURE(3, &verifOwner, &shared->count);
+  }
+#endif // DISPENSO_VERIF
 
   auto whenComplete = [shared]() -> VecType {
     for (auto& f : shared->vec) {
+      DISPENSO_VERIF_POINT("FuWaCountLd", &shared->count);
       if (0 == shared->count.load(std::memory_order_acquire)) {
         break;
       }
@@ -229,6 +246,7 @@ whenAllIterators(Invoker& invoker, InputIt first, InputIt last) {
   for (auto& s : shared->vec) {
     s.then(
         [shared](auto&&) {
+          DISPENSO_VERIF_POINT("FuWaDec", &shared->count);
           if (shared->count.fetch_sub(1, std::memory_order_release) == 1) {
             shared->f();
           }
@@ -246,8 +264,15 @@ auto whenAnyTuple(Invoker& invoker, Futures&&... futures) -> Future<size_t> {
 
   auto shared =
       std::make_shared<detail::WhenAnySharedTuple<TupleType>>(std::forward<Futures>(futures)...);
+#if defined(DISPENSO_VERIF)
+      {
+        std::shared_ptr<const void> verifOwner(shared);
+        (void)DISPENSO_VERIF_FUTURE(4, &verifOwner, &shared->winner);
+      }
+#endif // DISPENSO_VERIF
 
   auto whenComplete = [shared]() -> size_t {
+    DISPENSO_VERIF_POINT("FuWyWinnerLd", &shared->winner);
     size_t w = shared->winner.load(std::memory_order_acquire);
     if (w != SIZE_MAX) {
       return w;
@@ -263,9 +288,11 @@ auto whenAnyTuple(Invoker& invoker, Futures&&... futures) -> Future<size_t> {
       --idx;
       future.wait();
       size_t expected = SIZE_MAX;
+      DISPENSO_VERIF_POINT("FuWyInlineCas", &shared->winner);
       shared->winner.compare_exchange_strong(expected, idx, std::memory_order_acq_rel);
       return false; // one input resolved ⇒ winner is now set; stop iterating.
     });
+    DISPENSO_VERIF_POINT("FuWyWinnerLd2", &shared->winner);
     return shared->winner.load(std::memory_order_acquire);
   };
 
@@ -280,6 +307,7 @@ auto whenAnyTuple(Invoker& invoker, Futures&&... futures) -> Future<size_t> {
     future.then(
         [shared, myIdx](auto&&) {
           size_t expected = SIZE_MAX;
+          DISPENSO_VERIF_POINT("FuWyCas", &shared->winner);
           if (shared->winner.compare_exchange_strong(expected, myIdx, std::memory_order_acq_rel)) {
             shared->f();
           }
@@ -302,8 +330,15 @@ Future<size_t> whenAnyIterators(Invoker& invoker, InputIt first, InputIt last) {
   }
 
   auto shared = std::make_shared<detail::WhenAnySharedVec<VecType>>(first, last);
+#if defined(DISPENSO_VERIF)
+  {
+    std::shared_ptr<const void> verifOwner(shared);
+    (void)DISPENSO_VERIF_FUTURE(4, &verifOwner, &shared->winner);
+  }
+#endif // DISPENSO_VERIF
 
   auto whenComplete = [shared]() -> size_t {
+    DISPENSO_VERIF_POINT("FuWyWinnerLd", &shared->winner);
     size_t w = shared->winner.load(std::memory_order_acquire);
     if (w != SIZE_MAX) {
       return w;
@@ -318,7 +353,9 @@ Future<size_t> whenAnyIterators(Invoker& invoker, InputIt first, InputIt last) {
     // non-empty here (the empty range returned above).
     shared->vec[0].wait();
     size_t expected = SIZE_MAX;
+    DISPENSO_VERIF_POINT("FuWyInlineCas", &shared->winner);
     shared->winner.compare_exchange_strong(expected, size_t{0}, std::memory_order_acq_rel);
+    DISPENSO_VERIF_POINT("FuWyWinnerLd2", &shared->winner);
     return shared->winner.load(std::memory_order_acquire);
   };
 
@@ -330,6 +367,7 @@ Future<size_t> whenAnyIterators(Invoker& invoker, InputIt first, InputIt last) {
     s.then(
         [shared, i](auto&&) {
           size_t expected = SIZE_MAX;
+          DISPENSO_VERIF_POINT("FuWyCas", &shared->winner);
           if (shared->winner.compare_exchange_strong(expected, i, std::memory_order_acq_rel)) {
             shared->f();
           }
